@@ -73,6 +73,20 @@ pub enum Op {
     /// advance by exactly the pending timeout plus `delta_ms - 1` (so 0 = one ms short)
     AdvanceNearTimeout { delta_ms: u8 },
     TakeApplied,
+    /// Relative ops, resolved against the table's current content when they are executed (so that
+    /// histories around a waiting pending entry are frequent): act on the pending entry of the
+    /// `sel`-th bucket that has one (falls back to `Look{k: sel}` if there is none)
+    OnPending { sel: u8, act: Act },
+    /// act on the first (least recently disconnected / connected) entry of that bucket
+    OnHead { sel: u8, act: Act },
+    /// insert a pool key of that bucket that is neither stored nor pending
+    Refill { sel: u8, conn: bool },
+}
+
+#[derive(Clone, Copy, Debug, Serialize, Deserialize, PartialEq, Eq)]
+pub enum Act {
+    Update { conn: bool },
+    Remove,
 }
 
 #[derive(Clone, Debug, Serialize, Deserialize)]
@@ -95,7 +109,14 @@ pub fn op_strategy() -> impl Strategy<Value = Op> {
         2 => (0u32..12_000).prop_map(|ms| Op::Advance { ms }),
         3 => (0u8..3).prop_map(|delta_ms| Op::AdvanceNearTimeout { delta_ms }),
         1 => Just(Op::TakeApplied),
+        2 => (any::<u8>(), act()).prop_map(|(sel, act)| Op::OnPending { sel, act }),
+        2 => (any::<u8>(), act()).prop_map(|(sel, act)| Op::OnHead { sel, act }),
+        2 => (any::<u8>(), prop_oneof![3 => Just(true), 1 => Just(false)]).prop_map(|(sel, conn)| Op::Refill { sel, conn }),
     ]
+}
+
+fn act() -> impl Strategy<Value = Act> {
+    prop_oneof![2 => any::<bool>().prop_map(|conn| Act::Update { conn }), 1 => Just(Act::Remove)]
 }
 
 pub fn setup_strategy(max_ops: usize) -> impl Strategy<Value = Setup> {
@@ -214,6 +235,9 @@ pub struct World {
     /// virtual time at which the pending entry of a bucket was created (model-free timeout check)
     pending_since: BTreeMap<usize, Duration>,
     tick: u64,
+    /// buckets in which an entry was removed (and then one inserted) while the current pending entry waits
+    freed: std::collections::BTreeSet<usize>,
+    refilled: std::collections::BTreeSet<usize>,
     pub stats: Stats,
 }
 
@@ -227,6 +251,20 @@ pub struct Stats {
     pub full: u32,
     pub local_ops: u32,
     pub max_fill: usize,
+    /// the status of a pending entry was changed before it was applied / dropped
+    pub pending_status_changed: u32,
+    /// a *disconnected* pending entry was applied to a full bucket holding disconnected and connected entries
+    pub disc_pending_applied_mixed: u32,
+    /// a connected pending entry was applied to a full bucket holding disconnected and connected entries
+    pub conn_pending_applied_mixed: u32,
+    /// a bucket entry was removed while the bucket had a pending entry
+    pub removed_while_pending: u32,
+    /// ... and an entry was inserted into the freed slot while the pending entry was still waiting
+    pub refilled_while_pending: u32,
+    /// a ready pending entry was dropped because the bucket was full of connected entries
+    pub ready_pending_dropped: u32,
+    /// ... after a removal + refill had happened while it was waiting
+    pub ready_pending_dropped_after_refill: u32,
 }
 
 fn status(conn: bool) -> NodeStatus {
@@ -259,6 +297,8 @@ impl World {
             stamp: BTreeMap::new(),
             pending_since: BTreeMap::new(),
             tick: 0,
+            freed: Default::default(),
+            refilled: Default::default(),
             stats: Stats::default(),
         }
     }
@@ -294,8 +334,37 @@ impl World {
             .collect::<Vec<_>>())
     }
 
+    /// Turns a relative op into the concrete op it stands for in the table's current state
+    /// (read-only snapshot: nothing is applied by looking).
+    pub fn resolve(&self, op: &Op) -> Op {
+        let (sel, what) = match op {
+            Op::OnPending { sel, act } => (*sel, (Some(*act), true, false)),
+            Op::OnHead { sel, act } => (*sel, (Some(*act), false, false)),
+            Op::Refill { sel, conn } => (*sel, (None, false, *conn)),
+            other => return other.clone(),
+        };
+        let snap = self.table.snapshot();
+        let with_pending: Vec<&BucketSnap> = snap.iter().filter(|b| b.pending.is_some()).collect();
+        if with_pending.is_empty() {
+            return Op::Look { k: sel % POOL };
+        }
+        let b = with_pending[sel as usize % with_pending.len()];
+        let target = match what {
+            (Some(_), true, _) => b.pending.as_ref().and_then(|p| self.key_id(&p.key)),
+            (Some(_), false, _) => b.nodes.first().and_then(|n| self.key_id(&n.key)),
+            (None, _, _) => (0..POOL).find(|k| pool_bucket(*k) == Some(b.index) && !b.nodes.iter().chain(b.pending.iter()).any(|n| self.key_id(&n.key) == Some(*k))),
+        };
+        match (target, what) {
+            (Some(k), (Some(Act::Update { conn }), _, _)) => Op::Update { k, conn },
+            (Some(k), (Some(Act::Remove), _, _)) => Op::Remove { k },
+            (Some(k), (None, _, conn)) => Op::Insert { k, conn },
+            (None, _) => Op::Look { k: sel % POOL },
+        }
+    }
+
     /// Executes one op on the real table only (used by C38 to build tables quickly).
     pub fn apply_sut_only(&mut self, op: &Op, step: usize) {
+        let op = &self.resolve(op);
         match op {
             Op::Insert { k, conn } => {
                 let _ = self.table.insert(&self.keys[(*k % POOL) as usize], step as u32, status(*conn));
@@ -317,12 +386,14 @@ impl World {
             Op::TakeApplied => {
                 let _ = self.table.take_applied_pending();
             }
+            Op::OnPending { .. } | Op::OnHead { .. } | Op::Refill { .. } => unreachable!("resolved above"),
         }
     }
 
     /// Executes one op on table and model, then runs the model comparison and the model-free
     /// invariants. `Err(outcome)` is a violation.
     pub fn step(&mut self, op: &Op, step: usize) -> Result<(), Outcome> {
+        let op = &self.resolve(op);
         let before = self.table.snapshot();
         let t = now();
         self.tick += 1;
@@ -389,6 +460,9 @@ impl World {
                         } else if let Some((p, _)) = b.pending.as_mut().filter(|(p, _)| p.k == k) {
                             let old = p.conn;
                             p.conn = *conn;
+                            if old != *conn {
+                                self.stats.pending_status_changed += 1;
+                            }
                             EntryKind::Pending(status(old))
                         } else {
                             EntryKind::Absent
@@ -485,6 +559,7 @@ impl World {
                 let want = self.model.applied.pop_front();
                 self.cmp_applied(&got, &want, step)?;
             }
+            Op::OnPending { .. } | Op::OnHead { .. } | Op::Refill { .. } => unreachable!("resolved above"),
         }
         let after = self.table.snapshot();
         self.compare_with_model(&after, step, op)?;
@@ -598,6 +673,14 @@ impl World {
             // reported the removed entry as Present)
             let applied = bb.pending.as_ref().filter(|p| came.iter().any(|n| n.key == p.key) || (removed_key.is_some() && self.key_id(&p.key) == removed_key)).cloned();
             if let Some(p) = &applied {
+                let mixed = bb.nodes.len() >= cap && bb.nodes.iter().any(|n| is_conn(n.status)) && bb.nodes.iter().any(|n| !is_conn(n.status));
+                if mixed {
+                    if is_conn(p.status) {
+                        self.stats.conn_pending_applied_mixed += 1;
+                    } else {
+                        self.stats.disc_pending_applied_mixed += 1;
+                    }
+                }
                 let since = self.pending_since.get(&idx).cloned();
                 match since {
                     Some(s) if t >= s + self.model.timeout => {}
@@ -644,6 +727,28 @@ impl World {
             };
             if bb.pending.is_some() && pending_changed && applied.is_none() {
                 self.stats.pending_dropped += 1;
+                if bb.pending_ready {
+                    self.stats.ready_pending_dropped += 1;
+                    if self.refilled.contains(&idx) {
+                        self.stats.ready_pending_dropped_after_refill += 1;
+                    }
+                }
+            }
+            // removals / refills while a pending entry is waiting
+            if bb.pending.is_some() && ab.pending.is_some() && !pending_changed {
+                if removed_key.is_some() && !gone.is_empty() {
+                    self.stats.removed_while_pending += 1;
+                    self.freed.insert(idx);
+                } else if !came.is_empty() && self.freed.contains(&idx) {
+                    self.stats.refilled_while_pending += 1;
+                    self.refilled.insert(idx);
+                }
+            }
+            if ab.pending.is_none() || pending_changed {
+                self.freed.remove(&idx);
+                if ab.pending.is_none() {
+                    self.refilled.remove(&idx);
+                }
             }
             if pending_changed {
                 if ab.pending.is_some() {
